@@ -151,6 +151,12 @@ class SchemaGen:
             self.sigs[nm] = sig
             self.echo.append(nm)
             qfields.append(dict(sig))
+        # an input type whose field names resemble each other: a mistyped key has several "did you mean" candidates
+        near = {"kind": "input", "name": "Near", "fields": [{"name": f"alpha{i}", "type": N("Int"), "default": None} for i in range(1, 5)]}
+        self.inputs.append(near)
+        self.sigs["echoNear"] = {"name": "echoNear", "type": N("String"), "args": [{"name": "v", "type": N("Near"), "default": None}]}
+        self.echo.append("echoNear")
+        qfields.append(dict(self.sigs["echoNear"]))
         # `mixed: [I]` for an interface with >= 2 runtime types and a composite field (see mixed_scenario)
         self.mixed = None
         for i in self.ifaces:
@@ -655,6 +661,9 @@ class DocGen:
                 if k < 0.3 and is_nn(ty): continue                     # missing required
                 if k < 0.5 and is_nn(ty): out[n] = None; continue
                 out[n] = r.choice(["notanumber", 1.5, True, [1, "x"], {"zz": 1}, 2**31, -1, {"x": "a"}, [[None]], "Z"])
+                if base(ty) == "Near" and r.random() < 0.7:      # a mistyped key close to several declared ones
+                    out[n] = r.choice([{"alpha": 1}, {"alpha1": 1, "alpah2": 2}, {"alpha5": 3}])
+                    if "l" in unwrap_nn(ty): out[n] = [out[n]]
                 continue
             if not is_nn(ty) and (d is not None or True) and r.random() < 0.25: continue     # omitted (default or absent)
             lit = self.sg.const_literal(ty, 0)
